@@ -171,13 +171,10 @@ def main(tier):
             site = fr.split(",")[0].split(".")[-1] if fr else ""
             sig = {"what": o["outcome"], "driver": k, "site": site, "frames": fr, "panic": o.get("panic", "")[:80],
                    "msg": (o.get("err") or {}).get("msg", "")[:60], "detail": ""}
-            if o["outcome"] == "error":
-                # input class: the text at which a schema body is expected consists of a comment / annotation opener only
-                ef = o["err"]["file"]
-                src = common.unb64(cs["files"].get(ef, cs["files"][cs["root"]]))
-                last = [ln.strip() for ln in src.decode("latin1").replace("\r", "\n").split("\n") if ln.strip()]
-                if last and (last[-1].startswith("#") or last[-1].startswith("/")):
-                    sig["detail"] = "schema-body-is-only-a-comment-opener"
+            if o["outcome"] == "error" and o["err"].get("dep_fault"):
+                # the harness reproduced exactly this fault text by calling the schema library alone on the
+                # bytes at the error position: the fault is raised inside the pinned dependency
+                sig["detail"] = "schema-library-" + o["err"]["dep_fault"]
             main_text = common.unb64(cs["files"][cs["root"]])[:600]
             chk.violation("real pipeline %s | site %s | %s input %s: %r" % (bad, site, k, cid, main_text),
                           {"kind": "totality", "case": cs, "observed": o, "signature": sig}, sig)
